@@ -6,19 +6,6 @@ set_option linter.unusedSimpArgs false
 
 namespace Jade.Sys
 
-/-- a job waiting or running on a node is on no other node -/
-theorem node_job_unique {s : Sys} (hi : NodeInv s) {p p' : Pid} {a a' : Bool} {n n' : NodeP} {j : JobId}
-    (hp : s.procs p = .node a n) (hp' : s.procs p' = .node a' n')
-    (hj : j ∈ n.queued ∨ j ∈ n.running) (hj' : j ∈ n'.queued ∨ j ∈ n'.running) : p = p' := by
-  obtain ⟨b, hb, hh, -, hq, hr⟩ := hi.ofBatch p a n hp
-  obtain ⟨b', hb', hh', -, hq', hr'⟩ := hi.ofBatch p' a' n' hp'
-  have h1 : j ∈ b.jobs := hj.elim (hq j) (hr j)
-  have h2 : j ∈ b'.jobs := hj'.elim (hq' j) (hr' j)
-  have hbb : b = b' := mem_unique_batch hi.batch.jobsNodup hb hb' h1 h2
-  subst hbb
-  have : n.hid = n'.hid := by rw [hh] at hh'; exact Option.some.inj hh'
-  exact hi.oneRunner p p' a a' n n' hp hp' this
-
 structure PlainC (s : Sys) : Prop where
   queuedNoRow : ∀ p a n, s.procs p = .node a n → ∀ j ∈ n.queued, ¬ HasRow s j
   runningNoRow : ∀ p a n, s.procs p = .node a n → ∀ j ∈ n.running, ¬ HasRow s j
